@@ -8,8 +8,8 @@ from .common import *
 BATCHES = {
     "quick": [
         ("pay", 6, 90, {}),
-        ("life", 8, 90, {}),
-        ("auth", 8, 90, {}),
+        ("life", 10, 100, {}),
+        ("auth", 12, 100, {}),
         ("reward", 6, 80, {}),
         ("did", 6, 120, {}),
         ("scarce", 8, 90, {}),
